@@ -55,6 +55,7 @@ PROPS = {
                     'plumbing (1/(N-1) normalisation, antisymmetric matrix, pooled ratio) on formal terms for every index selection',
     ),
     'C05': dict(
+        assumptions=["integral() proofs (…_integral_*.P): np.sum over a slice of symbolic length is the NAMED finite sum SIGMA(summand, length) (assumed contract of np.sum; sum(mask) > 0 as 'some entry is true'); the specification is written with the same name (whole pieces inside the interval + two partial pieces); the bridge to the literal Riemann form (sum over ALL pieces of value * overlap) is a property of finite sums that is not proved - the bounded groups check the literal form", 'avrg() proofs (…_avrg_*.P) are stated against the contract of integral: the callee is an opaque value INT(lo, hi) / MULT(lo, hi) >= 0'],
         title='Scalar = average of the profile', level='other',
         groups=both(['plumb.profile_avg', 'isidist_pyx.P', 'spikedist_pyx.P', 'spikedist_ri_pyx.P', 'isidist_pyx.B', 'spikedist_pyx.B', 'syncval_pyx.P', 'syncval_pyx.B', 'orderval_pyx.P', 'orderval_pyx.B',
                      'pwc_avrg_none.P', 'pwc_avrg_one.P', 'pwc_avrg_list2.P', 'pwc_avrg.B', 'pwl_avrg_none.P', 'pwl_avrg_one.P', 'pwl_avrg_list2.P', 'pwl_avrg.B', 'disc_avrg_none.P', 'disc_avrg_one.P', 'disc_avrg_list2.P', 'disc_avrg.B', 'pwc_integral_none.P', 'pwc_integral_one.P', 'pwc_integral.B', 'pwl_integral_none.P', 'pwl_integral_one.P', 'pwl_integral.B', 'disc_integral_none.P', 'disc_integral_one.P', 'disc_integral.B']),
@@ -65,10 +66,10 @@ PROPS = {
     ),
     'C06': dict(
         title='Multivariate = all-pairs aggregate, order independent', level='other',
-        groups=both(['plumb.forms', 'plumb.repeated', 'plumb.degenerate', 'addpwc_py.P', 'addpwc_pyx.P', 'addpwl_py.P', 'addpwl_pyx.P', 'adddisc_py.P', 'adddisc_pyx.P', 'addpwl_py.B', 'addpwl_pyx.B', 'adddisc_py.B', 'adddisc_pyx.B', 'lemmas.symmetry']),
+        groups=both(['plumb.forms', 'plumb.many', 'plumb.repeated', 'plumb.degenerate', 'addpwc_py.P', 'addpwc_pyx.P', 'addpwl_py.P', 'addpwl_pyx.P', 'adddisc_py.P', 'adddisc_pyx.P', 'addpwl_py.B', 'addpwl_pyx.B', 'adddisc_py.B', 'adddisc_pyx.B', 'lemmas.symmetry']),
         technique='wrappers executed on formal terms with symmetric kernel atoms; add kernels under contract',
         explanation='recursive pair halving, pair enumeration from indices, 1/M scaling, pooled sums and matrix filling are compared with the '
-                    'all-pairs normal form for every ordered index subset (hence every permutation); profile addition is pointwise (C09 contracts)',
+                    'all-pairs normal form for every ordered index subset (hence every permutation), for lists of 8 to 17 (quick) / 33 (thorough) trains, for lists in which a train occurs twice and for every emptiness pattern; profile addition is pointwise (C09 / C11 contracts, proved for all operands)',
     ),
     'C07': dict(
         title='Range, symmetry, identity', level='other',
@@ -84,6 +85,7 @@ PROPS = {
         explanation='each kernel is executed symbolically on (s1,s2) and on the transformed trains; outputs are related as the statement says',
     ),
     'C09': dict(
+        assumptions=['method add (…_add_*.P): the kernel is an opaque call (its contract is proved in the add*.P groups); strided slice stores a[lo::2] = b are modelled by a quantified definition of the new array (assumed numpy contract)'],
         title='Adding piecewise profiles is pointwise addition', level='other',
         groups=both(['addpwc_py.P', 'addpwc_pyx.P', 'addpwl_py.P', 'addpwl_pyx.P', 'addpwc_py.B', 'addpwl_py.B', 'addpwl_pyx.B', 'pwc_mul.P', 'pwc_mul.B', 'pwc_copy.P', 'pwc_copy.B', 'pwc_add_fb.P', 'pwc_add_fb.B', 'pwc_add_cy.P', 'pwc_add_cy.B', 'pwl_mul.P', 'pwl_mul.B', 'pwl_copy.P', 'pwl_copy.B', 'pwl_add_fb.P', 'pwl_add_fb.B', 'pwl_add_cy.P', 'pwl_add_cy.B', 'disc_mul.P', 'disc_mul.B', 'disc_copy.P', 'disc_copy.B', 'disc_add_fb.P', 'disc_add_fb.B', 'disc_add_cy.P', 'disc_add_cy.B', 'pwc_hist_copy.B', 'pwl_hist_copy.B', 'pwc_hist_acc_fa.B', 'pwc_hist_acc_co.B', 'pwl_hist_acc_fa.B', 'pwl_hist_acc_co.B', 'pwc_hist_eval.B', 'pwl_hist_eval.B']),
         technique='inductive VCs for the piecewise-constant and the piecewise-linear merge (py + pyx; interpolation with products / quotients abstracted to uninterpreted functions plus ground laws); the class methods add / mul_scalar / copy for any number of pieces (add: modular over the kernel contract); bounded symbolic execution of the same methods with the kernels inlined and of operation histories',
@@ -91,6 +93,7 @@ PROPS = {
                     'add / mul_scalar / copy methods bounded, result arrays never alias an operand; histories (add; mul_scalar; add again - copy; scale the original) executed over the real classes; frame obligations show the operand is not modified',
     ),
     'C10': dict(
+        assumptions=["integral() proofs (…_integral_*.P): np.sum over a slice of symbolic length is the NAMED finite sum SIGMA(summand, length) (assumed contract of np.sum; sum(mask) > 0 as 'some entry is true'); the specification is written with the same name (whole pieces inside the interval + two partial pieces); the bridge to the literal Riemann form (sum over ALL pieces of value * overlap) is a property of finite sums that is not proved - the bounded groups check the literal form", 'avrg() proofs (…_avrg_*.P) are stated against the contract of integral: the callee is an opaque value INT(lo, hi) / MULT(lo, hi) >= 0', 'method add (…_add_*.P): the kernel is an opaque call (its contract is proved in the add*.P groups); strided slice stores a[lo::2] = b are modelled by a quantified definition of the new array (assumed numpy contract)'],
         title='Integral, average and evaluation are exact', level='other',
         groups=both(['pwc_integral_none.P', 'pwc_integral_one.P', 'pwc_integral.B', 'pwc_avrg_none.P', 'pwc_avrg_one.P', 'pwc_avrg_list2.P', 'pwc_avrg.B', 'pwc_call.P', 'pwc_call.B', 'pwc_callseq.B', 'pwc_plot.P', 'pwc_plot.B', 'pwl_integral_none.P', 'pwl_integral_one.P', 'pwl_integral.B', 'pwl_avrg_none.P', 'pwl_avrg_one.P', 'pwl_avrg_list2.P', 'pwl_avrg.B', 'pwl_call.P', 'pwl_call.B', 'pwl_callseq.B', 'pwl_plot.P', 'pwl_plot.B', 'pwc_hist_eval.B', 'pwl_hist_eval.B', 'pwc_hist_query.B', 'pwl_hist_query.B']),
         technique='integral() of both classes for any number of pieces (np.sum of a slice of symbolic length = the named finite sum SIGMA, searchsorted as assumed contract): whole pieces inside the interval + the two partial pieces; bounded symbolic execution of all methods against the literal Riemann-sum definition',
@@ -98,8 +101,9 @@ PROPS = {
                     'scalar and vectorised __call__ and plottable arrays; histories over the real classes: evaluate ; mul_scalar ; evaluate and integral/avrg ; add ; mul_scalar ; integral/avrg, each against a fresh object with the same content',
     ),
     'C11': dict(
+        assumptions=["integral() proofs (…_integral_*.P): np.sum over a slice of symbolic length is the NAMED finite sum SIGMA(summand, length) (assumed contract of np.sum; sum(mask) > 0 as 'some entry is true'); the specification is written with the same name (whole pieces inside the interval + two partial pieces); the bridge to the literal Riemann form (sum over ALL pieces of value * overlap) is a property of finite sums that is not proved - the bounded groups check the literal form", 'avrg() proofs (…_avrg_*.P) are stated against the contract of integral: the callee is an opaque value INT(lo, hi) / MULT(lo, hi) >= 0'],
         title='Discrete profiles add by event and integrate over open intervals', level='other',
-        groups=both(['adddisc_py.P', 'adddisc_pyx.P', 'adddisc_py.B', 'adddisc_pyx.B', 'disc_integral_none.P', 'disc_integral_one.P', 'disc_integral.B', 'disc_avrg_none.P', 'disc_avrg_one.P', 'disc_avrg_list2.P', 'disc_avrg.B', 'disc_plot.B', 'disc_smooth.B', 'disc_hist_query.B']),
+        groups=both(['adddisc_py.P', 'adddisc_pyx.P', 'adddisc_py.B', 'adddisc_pyx.B', 'disc_integral_none.P', 'disc_integral_one.P', 'disc_integral.B', 'disc_avrg_none.P', 'disc_avrg_one.P', 'disc_avrg_list2.P', 'disc_avrg.B', 'disc_plot.P', 'disc_plot.B', 'disc_smooth.B', 'disc_hist_query.B']),
         technique='inductive VCs for the event merge (py + pyx, cursor form); bounded symbolic execution of the kernel against the literal event-wise definition and of the methods',
         explanation='add_discrete_function proved for all inputs: cursors run from the first to the last event in steps of at most one, each advancing step emits exactly that event, values / multiplicities summed where both advance, a non-advancing operand has no event at that time, events strictly increasing; merge of events with summed values / multiplicities, open-interval selection, ratio with empty convention, k=0 plottable '
                     'data; smoothing window k>0 with concrete integer multiplicities; history integral(a,b) ; add ; mul_scalar ; integral(a,b) against a fresh object with the same content',
